@@ -1,5 +1,5 @@
 /* cuts for the C16 harnesses: values handled here never contain function pointers, programs or objects */
-#include <config.h>
+#include "all_types.h"
 #include "std.h"
 #include "lpc/types.h"
 #include "lpc/functional.h"
